@@ -465,7 +465,7 @@ Fixpoint pe_loop (rec : N -> etype -> list (N * cdata) -> option (list N) -> lis
        do spec <- lift (chardata_spec T ty);
        match spec with
        | Some cs =>
-         (* a character data element holds exactly one value (fix 3656060) *)
+         (* a character data element holds exactly one value (fix 00b10f0) *)
          do mode <- lift (content_mode T ty);
          if (mode =? MCharacters) && negb (match content with [] => true | _ => false end) then
            optional_error CharacterContentForbidden name 0;;
